@@ -157,6 +157,17 @@ CHECKS = {
         "onset per score onset; three open known findings (grace duration 0, 75 ms floor twice).",
         "DESIGN.md section 4 C18",
     ),
+    "C19": (
+        "exhaustive enumeration of abstract scores serialised by independent MEI and kern writers, denotational reference in Fraction quarters; export->load round trips; dispatch",
+        "Abstract scores over small notation alphabets (values whole..16th with 0-3 dots, tuplets, chords, rests, measure rests, spaces, ties, "
+        "graces, layers/spines, staves, meter/key/clef declared as attributes or children / tandem interpretations, barlines, spine splits, "
+        "repeats) are written as MEI and kern text by two independent writers and loaded by the real importers; every note's spelling, onset, "
+        "duration, staff, voice partition, ties, measure starts and the meter/key/clef in force are compared with the denotation; exportable "
+        "parts are saved with save_mei/save_kern and re-loaded; load_score dispatch by extension incl. content under the wrong extension.",
+        "Trusted: the two writers and the reference reading in mc/c19_model.py; lxml; kern voice numbers and part order left open; two open known "
+        "findings (kern tie touching a chord, spines sharing a part only when all agree).",
+        "DESIGN.md section 4 C19",
+    ),
     "C20": (
         "exhaustive enumeration of call sequences (depth 2) over an object family + stateless enumeration of all interleavings of iteration clients",
         "Every ordered pair (and every repetition) of read-only entry points is executed on every object of an enumerated family; "
